@@ -86,7 +86,7 @@ def _limit_memory() -> None:
 
 def import_targets(mod: Any) -> List[str]:
     """.vo targets a property needs: its Props file and whatever its suites import."""
-    targets = [mod.PROPS_FILE + "o"]
+    targets = [f + "o" for f in props_files(mod)]
     try:
         for su in mod.suites("replay", 0):
             for imp in su.imports:
@@ -144,6 +144,11 @@ def build(targets: Optional[List[str]] = None, timeout: int = 3000) -> Dict[str,
 def up_to_date(vo: str) -> bool:
     p = subprocess.run(["make", "-q", vo], cwd=COQ, capture_output=True, text=True)
     return p.returncode == 0 and os.path.exists(os.path.join(COQ, vo))
+
+
+def props_files(mod: Any) -> List[str]:
+    """A property's theorem files: PROPS_FILE plus optional PROPS_EXTRA (e.g. files contributed by another proof effort)."""
+    return [mod.PROPS_FILE] + list(getattr(mod, "PROPS_EXTRA", []))
 
 
 def theorem_names(props_file: str) -> List[str]:
@@ -262,20 +267,26 @@ def check(pid: str, tier: str, seed: int) -> int:
     for name, ok, why in b["pins"]:
         if not ok and (name in getattr(mod, "GEN_DEPS", []) or name == "*"):
             problems.append({"kind": "broken-pin", "theorem_or_suite": name, "what": why})
-    names = theorem_names(mod.PROPS_FILE)
+    names: List[str] = []
     status = getattr(mod, "THEOREMS", {})
-    vo = mod.PROPS_FILE + "o"
     thm_report: List[Dict[str, Any]] = []
     discharged = 0
-    if not up_to_date(vo):
-        problems.append({"kind": "broken-proof", "theorem_or_suite": mod.PROPS_FILE,
-                         "what": "does not build: " + ", ".join(b["failed"]) + "\n" + b["log"][-1500:]})
-        assum: Dict[str, Any] = {}
-    else:
-        assum = assumptions(pid, mod.PROPS_FILE, names)
-        if "__error__" in assum:
-            problems.append({"kind": "broken-proof", "theorem_or_suite": mod.PROPS_FILE, "what": assum["__error__"]})
-            assum = {}
+    assum: Dict[str, Any] = {}
+    for pf in props_files(mod):
+        if not os.path.exists(os.path.join(COQ, pf)):
+            problems.append({"kind": "broken-proof", "theorem_or_suite": pf, "what": "theorem file is missing"})
+            continue
+        pf_names = theorem_names(pf)
+        names += pf_names
+        if not up_to_date(pf + "o"):
+            problems.append({"kind": "broken-proof", "theorem_or_suite": pf,
+                             "what": "does not build: " + ", ".join(b["failed"]) + "\n" + b["log"][-1500:]})
+            continue
+        a = assumptions(pid + "_" + os.path.basename(pf)[:-2], pf, pf_names)
+        if "__error__" in a:
+            problems.append({"kind": "broken-proof", "theorem_or_suite": pf, "what": a["__error__"]})
+            continue
+        assum.update(a)
     allowed = set(getattr(mod, "ALLOWED_AXIOMS", []))
     for n in names:
         ax = assum.get(n)
@@ -288,14 +299,14 @@ def check(pid: str, tier: str, seed: int) -> int:
         thm_report.append({"name": n, "status": status.get(n, "full"), "assumptions": ax, "checked": ok})
     for n in status:
         if n not in names:
-            problems.append({"kind": "broken-proof", "theorem_or_suite": n, "what": "theorem listed in THEOREMS is missing from " + mod.PROPS_FILE})
+            problems.append({"kind": "broken-proof", "theorem_or_suite": n, "what": "theorem listed in THEOREMS is missing from " + ", ".join(props_files(mod))})
 
     # thorough tier: independent re-check of the property's whole .vo closure with coqchk
     coqchk_report: Dict[str, Any] = {"ran": False}
     if tier == "thorough" and not any(p["kind"] == "broken-proof" for p in problems):
-        modname = "RG." + mod.PROPS_FILE[:-2].replace("/", ".")
+        modname = " ".join("RG." + f[:-2].replace("/", ".") for f in props_files(mod))
         try:
-            pr = subprocess.run(["timeout", "1800", "coqchk", "-o", "-silent", "-Q", ".", "RG", modname], cwd=COQ,
+            pr = subprocess.run(["timeout", "1800", "coqchk", "-o", "-silent", "-Q", ".", "RG"] + modname.split(), cwd=COQ,
                                 capture_output=True, text=True)
             out = pr.stdout + pr.stderr
             summary = out[out.find("CONTEXT SUMMARY"):] if "CONTEXT SUMMARY" in out else out[-1500:]
@@ -417,7 +428,7 @@ def check(pid: str, tier: str, seed: int) -> int:
         "property_id": pid, "tier": tier, "seed": seed, "level": "proof",
         "coverage": {
             "obligations": max(len(names), 1), "discharged": discharged,
-            "checker_cmd": f"cd coq && make -j16 && coqc -Q . RG {mod.PROPS_FILE}  (Print Assumptions per theorem)",
+            "checker_cmd": "cd coq && make -j16 " + " ".join(f + "o" for f in props_files(mod)) + " && coqc -Q . RG <each file>  (Print Assumptions per theorem)",
             "trusted_base": list(getattr(mod, "TRUSTED", [])),
             "theorems": thm_report,
             "pins": [{"name": n, "ok": ok, "note": why} for n, ok, why in b["pins"]],
